@@ -1,6 +1,7 @@
 from props import *  # noqa: F401,F403
 
 rc_bin("c13_rc", ["harness/c13_log_content.cc"], lib=True)
+rc_bin("c13_tsan", ["harness/c13_log_content.cc"], lib=True, san="tsan")
 PROPS["C13"] = dict(
     level_text="Model-based property tests: generated emit programs (17 precompiled argument orders of the variadic EmitLogRecord "
                "and the severity helpers, CreateLogRecord + setters in generated order, every body/attribute value alternative, "
@@ -20,5 +21,6 @@ PROPS["C13"] = dict(
         # f5_witness is only ever replayed (known/C13/F5.json); it has no search budget
         run("f5-witness", "c13_rc", "f5_witness", "rc", None, None),
         run("threads", "c13_rc", "log_threads", "rc", dict(procs=3, cases=600), dict(procs=6, cases=6000), deterministic=False),
+        run("threads-tsan", "c13_tsan", "log_threads", "rc", dict(procs=2, cases=250), dict(procs=4, cases=4000), deterministic=False, replay_bin="c13_tsan"),
     ],
 )
